@@ -3,6 +3,7 @@ from __future__ import annotations
 
 import collections
 import json
+import re
 import os
 
 from . import core, replay, tlc
@@ -312,21 +313,39 @@ def check_ref_property(prop: str, tier: str, seed: int) -> int:
 
 
 def replay_file(path: str) -> int:
-    """Re-runs a stored replay against the current tree; prints the verdict."""
-    r = json.load(open(path))
-    prog = r["program"]
-    tr = run_program(prog)
-    import tempfile, shutil
+    """Re-runs a stored replay against the current tree; prints the verdict (exit 0: agrees now, 1: still disagrees)."""
+    import importlib
+    import shutil
+    import tempfile
 
-    scratch = tempfile.mkdtemp(prefix="verif-rp-")
-    try:
-        v, o, _ = tlc.validate_batch(TRACE_SPEC, TRACE_CFG, r.get("clauses", ALL_CLAUSES), [tr], scratch, "rp")
-    finally:
-        shutil.rmtree(scratch, ignore_errors=True)
-    print("verdict:", v[1])
-    i = o.find("<<")
-    print(o[i:i + 3000])
-    return 0 if v[1][0] == "ok" else 1
+    r = json.load(open(path))
+    if "program" in r:          # history replays (trace / TLC-generated behaviour / operation-table cell)
+        tr = run_program(r["program"])
+        if tr is None:
+            print("verdict: the program leaves the exact fragment on this tree")
+            return 2
+        scratch = tempfile.mkdtemp(prefix="verif-rp-")
+        try:
+            v, o, _ = tlc.validate_batch(TRACE_SPEC, TRACE_CFG, r.get("clauses") or ALL_CLAUSES, [tr], scratch, "rp")
+        finally:
+            shutil.rmtree(scratch, ignore_errors=True)
+        print("verdict:", v[1])
+        for m in re.finditer(r'<<\s*"(EXPECTED-[A-Z]+|TAINT)"', o):
+            j = o.find("\n<<", m.start() + 2)
+            print(" ".join(o[m.start(): j if j > 0 else m.start() + 3000].split())[:3000])
+        return 0 if v[1][0] == "ok" else 1
+    if "rerun" in r:            # table cells / mechanism behaviours: the stored payload is executed again
+        from .driver import reset_global_state
+
+        mod, fn, args = r["rerun"]
+        reset_global_state()
+        res = getattr(importlib.import_module("harness." + mod), fn)(*args)
+        reset_global_state()
+        bad = bool(res) and not (isinstance(res, (list, tuple)) and len(res) >= 5 and res[4] is True and mod == "memguard")
+        print("verdict:", "agrees with the specification" if not bad else f"disagrees: {str(res)[:1500]}")
+        return 1 if bad else 0
+    print("this replay file predates re-runnable payloads; kind =", r.get("kind"))
+    return 2
 
 
 # ----------------------------------------------------------------------------- C15: scoped switches
@@ -366,7 +385,7 @@ def check_C15(tier: str, seed: int) -> int:
             if r is not None:
                 nbad += 1
                 line, what, pred, obs = r
-                out.violation({"kind": "context-replay", "events": [e["ev"] for e in b], "failing_event": line,
+                out.violation({"kind": "context-replay", "rerun": ["ctx", "compare", [b]], "events": [e["ev"] for e in b], "failing_event": line,
                                "predicted_track_guard": pred, "observed_track_guard": obs},
                               f"scoped switches: after event {line} the spec predicts (track, guard)={pred}, the code has {obs}")
         out.judged += len(behs)
@@ -397,7 +416,7 @@ def check_C15(tier: str, seed: int) -> int:
                 if r["verdict"] == "ok":
                     continue
                 nrej += 1
-                out.violation({"kind": "context-trace", "tests": r["tests"][:5], "events": r["events"][:r["line"] + 1][-40:],
+                out.violation({"kind": "context-trace", "rerun": ["ctxtrace", "revalidate", [r["events"]]], "tests": r["tests"][:5], "events": r["events"][:r["line"] + 1][-40:],
                                "failing_event": r["line"], "spec_state_before": r["expected_state"]},
                               f"scope events of repository test {r['tests'][0]} are not a behaviour of Context.tla "
                               f"(event {r['line']}: {json.dumps(r['events'][r['line'] - 1])})")
@@ -505,7 +524,7 @@ def stage_memguard_failures(out: core.Outcome, maxlen: int = 4):
             if r is None or r[4]:
                 continue
             nbad += 1
-            out.violation({"kind": "memguard-replay", "events": [e["ev"] for e in b], "failing_event": r[0], "field": r[1],
+            out.violation({"kind": "memguard-replay", "rerun": ["memguard", "compare", [b]], "events": [e["ev"] for e in b], "failing_event": r[0], "field": r[1],
                            "predicted": r[2], "observed": r[3]},
                           f"failed operation leaves a lock behind: after event {r[0]} the writeable flags differ from "
                           f"MemGuard.tla ({r[1]}: predicted {r[2]}, observed {r[3]})")
@@ -598,7 +617,7 @@ def check_C08(tier: str, seed: int) -> int:
                 drift += 1
                 continue
             nbad += 1
-            out.violation({"kind": "memguard-replay", "events": [e["ev"] for e in b], "failing_event": i, "field": field,
+            out.violation({"kind": "memguard-replay", "rerun": ["memguard", "compare", [b]], "events": [e["ev"] for e in b], "failing_event": i, "field": field,
                            "predicted": pred, "observed": obs},
                           f"memory guard: after event {i} the writeable flags differ from the model "
                           f"({field}: predicted {pred}, observed {obs})")
@@ -697,7 +716,7 @@ def check_C16(tier: str, seed: int) -> int:
                     nkf += 1
                     continue
                 nb += 1
-                out.violation({"kind": "layers-table", "config": it["cfg"], "variant": variant, "what": what,
+                out.violation({"kind": "layers-table", "rerun": ["layers", "run_config", [it]], "config": it["cfg"], "variant": variant, "what": what,
                                "predicted": pred, "observed": obs},
                               f"{it['cfg']['kind']} configuration {json.dumps(it['cfg'])}: {what}: table says {pred}, "
                               f"code gives {obs} ({variant} input)")
@@ -775,7 +794,7 @@ def stage_construct_tables(out: core.Outcome, tables, cell_filter=None):
                     agree += 1
                     continue
                 nb += 1
-                out.violation({"kind": "construct-table", "table": t, "cell": it["cell"], "field": r[0],
+                out.violation({"kind": "construct-table", "rerun": ["construct", "rerun", [t, it]], "table": t, "cell": it["cell"], "field": r[0],
                                "predicted": r[1], "observed": r[2]},
                               f"{t} cell {json.dumps(it['cell'])}: {r[0]}: table says {r[1]!r}, code gives {r[2]!r}")
             per[t] = {"cells": len(items), "disagree": nb}
@@ -842,7 +861,7 @@ def check_C11(tier: str, seed: int) -> int:
             if r is None:
                 continue
             nb += 1
-            out.violation({"kind": "dispatch-table", "cell": cell, "what": r[0], "reference": r[1], "observed": r[2]},
+            out.violation({"kind": "dispatch-table", "rerun": ["dispatch", "run_cell", [cell]], "cell": cell, "what": r[0], "reference": r[1], "observed": r[2]},
                           f"{cell['group']}:{cell['f']} {json.dumps({k: v for k, v in cell.items() if k not in ('spellings', 'group', 'f')})}: "
                           f"{r[0]}: reference {str(r[1])[:120]} vs {str(r[2])[:120]}")
         reset_global_state()
@@ -898,7 +917,7 @@ def check_C03(tier: str, seed: int) -> int:
                 out.model_mismatches.append({"clause": what, "line": 0, "program": cell, "pred": str(pred), "obs": str(obs)})
                 continue
             nb += 1
-            out.violation({"kind": "promote-table", "cell": cell, "what": what, "numpy": pred, "mygrad": obs},
+            out.violation({"kind": "promote-table", "rerun": ["promote", "run_cell", [cell]], "cell": cell, "what": what, "numpy": pred, "mygrad": obs},
                           f"{cell['group']}:{cell['f']} {json.dumps({k: v for k, v in cell.items() if k not in ('group', 'f')})}: "
                           f"{what}: NumPy gives {str(pred)[:100]}, MyGrad gives {str(obs)[:100]}")
         reset_global_state()
@@ -1041,7 +1060,7 @@ def check_C02(tier: str, seed: int) -> int:
             if r is None:
                 continue
             nk += 1
-            out.violation({"kind": "kernel-table", "row": {k: v for k, v in row.items() if k != "d"}, "what": r[0],
+            out.violation({"kind": "kernel-table", "rerun": ["kernels", "run_row", [row]], "row": {k: v for k, v in row.items() if k != "d"}, "what": r[0],
                            "expected": str(r[1]), "observed": str(r[2])},
                           f"kernel {row['f']} ({row['kind']}): {r[0]}: expected {str(r[1])[:120]}, MyGrad gives {str(r[2])[:120]}")
         if st:
@@ -1076,7 +1095,7 @@ def check_C02(tier: str, seed: int) -> int:
                 if r is None:
                     continue
                 ibad += 1
-                out.violation({"kind": "interp-table", "cell": it["cell"], "what": r[0], "expected": r[1], "observed": r[2]},
+                out.violation({"kind": "interp-table", "rerun": ["interp", "run_cell", [it]], "cell": it["cell"], "what": r[0], "expected": r[1], "observed": r[2]},
                               f"interpretation-point table: {it['cell']['f']} {json.dumps({k: v for k, v in it['cell'].items() if k not in ('x', 'f')})}: "
                               f"{r[0]}: exact {r[1]!r}, MyGrad {r[2]!r}")
         out.coverage["interp_cells"] = icells
@@ -1132,7 +1151,7 @@ def stage_layer_typing(out: core.Outcome, want=("shape", "dtype", "type", "grad"
                 out.kf_hit(key)
                 continue
             nb += 1
-            out.violation({"kind": "layer-typing", "cell": it["cell"], "what": what, "expected": exp, "observed": obs},
+            out.violation({"kind": "layer-typing", "rerun": ["layertyping", "run_cell", [it]], "cell": it["cell"], "what": what, "expected": exp, "observed": obs},
                           f"nnet layer {it['cell']['layer']} dtypes {it['cell']['dtypes']}: {what}: expected {exp}, got {obs}")
     reset_global_state()
     cov = out.coverage
